@@ -1075,6 +1075,10 @@ class Interp:
             g = self.lib.obj_attr(self, o, attr)
             if g is not NotImplemented:
                 return g
+            if o.cls is None and not (o.tag or '').startswith('exc:'):
+                # an object of a LIBRARY model (sparse matrix, abstract matrix, file, iterator ...): an attribute the model does not know is a limit of
+                # the model, not an AttributeError of the program - the function leaves the supported subset (out of reach), no alarm is raised
+                raise Unsupported(f'attribute {attr} of library object <{o.tag}> is not modelled')
             raise PyExc('AttributeError', f'{o!r} has no attribute {attr}')
         if isinstance(o, ClassInfo):
             f = o.find(attr)
